@@ -21,7 +21,7 @@ LEVEL_TEXT = (
 TRUSTED = "harness closure / scope computations (independent of onnx_ir helpers), onnxruntime CPU, onnx shape inference (types of boundary values)"
 RULE = (
     "case = model tape (vlib/rmodel.py) + indices choosing boundary outputs (1-2) and inputs (0-3) among the values of the "
-    "main graph + by-name flags. Non-trivial = the region has >=2 nodes and cuts through the interior (an intermediate "
+    "main graph + by-name flags; rmodel version 7 nests control flow three levels deep (every second such model with GRAPHS attributes). Non-trivial = the region has >=2 nodes and cuts through the interior (an intermediate "
     "value is an input), or a nested body captures a value across the boundary. distinct = case JSON."
 )
 ASSUMPTIONS = [
